@@ -84,6 +84,14 @@ def variant_decode(ctx, P, rule="VARIANT-DECODE"):
     ctx.ob(rule, "order", order, where, "site lookup, seek, mark missing, mutation loop (source order)")
     a = [estr(x) for x in seek[0].kids[1:]]
     ctx.ob(rule, "seek-arg", a[0] == "&self->tree" and a[1] == "self->site.position", tu.loc(seek[0]), "tsk_tree_seek(&self->tree, self->site.position, …)")
+    # the tree is repositioned for EVERY decode: no path reaches the ancestral fill / mutation loop around the seek
+    skn, ugn0 = node_of(seek[0]), node_of(ug[0])
+    if skn is not None and ugn0 is not None:
+        wit = cfg.find_path(cfg.entry, ugn0, avoid={skn})
+        ctx.ob(rule, "seek|every-path", wit is None, tu.loc(seek[0]),
+               "every path to the mutation loop passes tsk_tree_seek (decode() may be called in any site order)" if wit is None else
+               "a path reaches the mutation loop without tsk_tree_seek (lines %s): the tree of the previous decode is reused"
+               % " -> ".join(tu.loc(n.ast).split(":")[-1] for n in wit if n.ast is not None)[:120])
     # mark_missing condition
     conds = [xstr(i.kids[0], F.al) for i, br in F.enclosing_ifs(mm[0])]
     d = single_def(fn, "impute_missing")
